@@ -17,6 +17,15 @@ d = os.path.join("/verif/seeded", name)
 meta = json.load(open(os.path.join(d, "meta.json")))
 checks = checks or [meta["property"]]
 WT = "/tmp/rc-%s-%d" % (name[:20], os.getpid())
+# SEEDTEST_VERIF=auto: run the checks from a private driver directory (symlinks to /verif's files, own build/ and out/), so
+# that several evaluations, and the maintainer's own runs in /verif, do not share a build directory
+DEV = os.environ.get("SEEDTEST_VERIF", "/verif")
+if DEV == "auto":
+    DEV = "/tmp/devs-%d" % os.getpid()
+    os.makedirs(DEV, exist_ok=True)
+    for f in ("check", "checks.py", "harness", "vfkit", "known_findings.json", "replays", "checks.d", "shims"):
+        if not os.path.lexists(os.path.join(DEV, f)):
+            os.symlink(os.path.join("/verif", f), os.path.join(DEV, f))
 subprocess.run(["git", "-C", "/repo", "worktree", "add", "--detach", WT, "HEAD"], capture_output=True)
 try:
     p = subprocess.run(["git", "-C", WT, "apply", os.path.join(d, "patch.diff")], capture_output=True, text=True)
@@ -28,7 +37,7 @@ try:
     head = subprocess.check_output(["git", "-C", "/repo", "rev-parse", "--short", "HEAD"]).decode().strip()
     for c in checks:
         t0 = time.time()
-        p = subprocess.run(["./check", c, "--tier", tier], cwd="/verif", capture_output=True, text=True, env=dict(os.environ, VERIF_REPO=WT))
+        p = subprocess.run(["./check", c, "--tier", tier], cwd=DEV, capture_output=True, text=True, env=dict(os.environ, VERIF_REPO=WT))
         out = p.stdout + p.stderr
         first = ""
         lines = out.splitlines()
@@ -47,3 +56,6 @@ try:
     json.dump(meta, open(os.path.join(d, "meta.json"), "w"), indent=1)
 finally:
     subprocess.run(["git", "-C", "/repo", "worktree", "remove", "--force", WT], capture_output=True)
+    if DEV.startswith("/tmp/devs-"):
+        import shutil as _sh
+        _sh.rmtree(DEV, ignore_errors=True)
